@@ -465,6 +465,10 @@ def _mkprof_from_database(destination, db, schema, where, full, gzip):
                 records = list(db[table])
         else:
             records = list(db[table])
+        if records and list(db.schema[table]) != list(schema[table]):
+            # match the columns of the new schema by name
+            records = list(tsdb._remake_records(
+                records, db.schema[table], schema[table]))
         tsdb.write(destination,
                    table,
                    records,
